@@ -1,6 +1,7 @@
 """simk (design-phase prototype v2): a simulated kernel seen through psutil's module-level OS names."""
 import contextlib
 import errno
+import fractions
 import os as _os
 import stat as _stat
 import sys
@@ -8,7 +9,9 @@ import sys
 from . import seq, sym
 from .sym import HarnessError, SymInt
 
-sys.path.insert(0, __import__("os").environ.get("PSV_REPO", "/repo"))
+REPO = _os.environ.get("PSV_REPO", "/repo")
+if REPO not in sys.path:
+    sys.path.insert(0, REPO)
 sys.dont_write_bytecode = True
 import psutil  # noqa: E402
 from psutil import _common, _pslinux, _psposix  # noqa: E402
@@ -99,6 +102,7 @@ class Kernel:
         self.log = []
         self.fault = Fault()
         self.naccess = 0
+        self.naccess_total = 0
         self.shadows = sym.Shadows()
         self.clock_ticks, self.pagesize = clock_ticks, pagesize
         self._ntok = 0
@@ -106,6 +110,9 @@ class Kernel:
         self.procs = set()
         self.sysconf = {"SC_CLK_TCK": clock_ticks, "SC_NPROCESSORS_ONLN": 2}
         self.exists_oracle = None  # callable(path) -> bool|SymBool for paths unknown to the model
+        self.now = fractions.Fraction(1000)
+        self.sleeps = []
+        self.settings = {}
 
     # ---- numerals ---------------------------------------------------------------------
     def num(self, v, text=False, base=10, lead=b""):
@@ -122,6 +129,7 @@ class Kernel:
 
     # ---- fault gate -------------------------------------------------------------------
     def access(self, kind, path):
+        self.naccess_total += 1
         i = self.naccess
         f = self.fault
         applies = f.prefix is not None and isinstance(path, str) and path.startswith(f.prefix)
@@ -233,35 +241,93 @@ class Kernel:
 
     # ---- install ------------------------------------------------------------------------
     @contextlib.contextmanager
-    def installed(self):
+    def installed(self, full=True, extra=()):
+        """Replace psutil's module-level OS names by the simulated kernel for the duration of one path.
+        `extra` = further (module, name, value) patches.  Shadows (int/float/max/...) only in symbolic mode."""
         k = self
         os_proxy = OsProxy(k)
-        saved = {}
-        _common.open = k.open
+        k.os_proxy = os_proxy
+        _MISSING = object()
+        patches = [(_common, "open", k.open)]
         for m in MODS:
             for name, val in (("os", os_proxy), ("glob", GlobProxy(k))):
                 if name in vars(m):
-                    saved[(m, name)] = vars(m)[name]
-                    setattr(m, name, val)
-        k.shadows.install(*MODS)
-        saved_state = (_pslinux.BOOT_TIME, psutil._pmap, psutil._pids_reused, psutil._LOWEST_PID, psutil._TOTAL_PHYMEM, _pslinux.CLOCK_TICKS, _pslinux.PAGESIZE)
-        _pslinux.BOOT_TIME = None
-        psutil._pmap, psutil._pids_reused, psutil._LOWEST_PID, psutil._TOTAL_PHYMEM = {}, set(), None, None
-        _pslinux.CLOCK_TICKS, _pslinux.PAGESIZE = k.clock_ticks, k.pagesize
-        _psposix.get_terminal_map.cache_clear()
-        _pslinux.set_scputimes_ntuple.cache_clear()
-        _common._wn.cache_clear()
+                    patches.append((m, name, val))
+        if full:
+            patches += [(_pslinux, "cext", CextProxy(k, _pslinux.cext)), (_pslinux, "cext_posix", CextProxy(k, _pslinux.cext_posix)),
+                        (_pslinux, "resource", ResourceProxy(k)), (psutil, "pwd", PwdProxy(k)),
+                        (_psposix, "time", TimeProxy(k)), (psutil, "time", TimeProxy(k)), (psutil, "_timer", k.timer)]
+        # module state that must not leak from one path into the next
+        state = [(_pslinux, "BOOT_TIME", None), (psutil, "_pmap", {}), (psutil, "_pids_reused", set()), (psutil, "_LOWEST_PID", None),
+                 (psutil, "_TOTAL_PHYMEM", None), (_pslinux, "CLOCK_TICKS", k.clock_ticks), (_pslinux, "PAGESIZE", k.pagesize),
+                 (psutil, "_last_cpu_times", {}), (psutil, "_last_per_cpu_times", {}), (psutil, "_last_cpu_times_2", {}),
+                 (psutil, "_last_per_cpu_times_2", {})]
+        patches += state + list(extra)
+        saved = []
+        for m, name, val in patches:
+            saved.append((m, name, vars(m).get(name, _MISSING)))
+            setattr(m, name, val)
+        if getattr(k.ctx, "symbolic", False):
+            k.shadows.install(*MODS)
+        self._clear_caches()
         try:
             yield k
         finally:
-            del _common.open
-            for (m, name), val in saved.items():
-                setattr(m, name, val)
-            k.shadows.uninstall()
-            (_pslinux.BOOT_TIME, psutil._pmap, psutil._pids_reused, psutil._LOWEST_PID, psutil._TOTAL_PHYMEM, _pslinux.CLOCK_TICKS, _pslinux.PAGESIZE) = saved_state
-            _psposix.get_terminal_map.cache_clear()
-            _pslinux.set_scputimes_ntuple.cache_clear()
-            _common._wn.cache_clear()
+            if getattr(k.ctx, "symbolic", False):
+                k.shadows.uninstall()
+            for m, name, old in reversed(saved):
+                if old is _MISSING:
+                    if name in vars(m):
+                        delattr(m, name)
+                else:
+                    setattr(m, name, old)
+            self._clear_caches()
+
+    @staticmethod
+    def _clear_caches():
+        _psposix.get_terminal_map.cache_clear()
+        _pslinux.set_scputimes_ntuple.cache_clear()
+        _common._wn.cache_clear()
+        if hasattr(_common.supports_ipv6, "cache_clear"):
+            _common.supports_ipv6.cache_clear()
+
+    # ---- virtual clock -------------------------------------------------------------------
+    def timer(self):
+        return self.now
+
+    def sleep(self, d):
+        self.sleeps.append(d)
+        self.now = self.now + (fractions.Fraction(d) if isinstance(d, float) else d)
+
+
+class TimeProxy:
+    def __init__(self, k):
+        self.k = k
+
+    def sleep(self, d):
+        self.k.sleep(d)
+
+    def monotonic(self):
+        return self.k.timer()
+
+    def time(self):
+        return self.k.timer()
+
+    def __getattr__(self, n):
+        raise HarnessError(f"strict stub miss: time.{n}")
+
+
+class PwdProxy:
+    def __init__(self, k):
+        self.k = k
+
+    def getpwuid(self, uid):
+        import collections
+
+        names = getattr(self.k, "users", {})
+        if uid in names:
+            return collections.namedtuple("pw", "pw_name")(names[uid])
+        raise KeyError(uid)
 
 
 class PathProxy:
@@ -475,24 +541,5 @@ class ResourceProxy:
         return getattr(resource, n)
 
 
-@contextlib.contextmanager
 def installed_full(k):
-    with k.installed():
-        saved = (_pslinux.cext, _pslinux.cext_posix, _pslinux.resource, psutil._psplatform.cext)
-        cx = CextProxy(k, saved[0])
-        _pslinux.cext = cx
-        _pslinux.cext_posix = CextProxy(k, saved[1])
-        _pslinux.resource = ResourceProxy(k)
-        pwd_saved = psutil.pwd
-
-        class Pwd:
-            @staticmethod
-            def getpwuid(uid):
-                raise KeyError(uid)
-
-        psutil.pwd = Pwd
-        try:
-            yield k
-        finally:
-            _pslinux.cext, _pslinux.cext_posix, _pslinux.resource = saved[0], saved[1], saved[2]
-            psutil.pwd = pwd_saved
+    return k.installed(full=True)
